@@ -417,7 +417,26 @@ def rule_encode_decode_sizes(ctx: Ctx, rep: Report) -> None:
     rep.floor(rule, 1)
 
 
+def rule_base64_validated(ctx: Ctx, rep: Report) -> None:
+    """C06.base64_validated: `base64.b64decode` without `validate=True` discards
+    every character outside the alphabet instead of refusing the string: a
+    base64 psbt, signature or envelope with stray characters in it decodes as
+    the string without them. Every call in the package validates (an inferred
+    rule: 5 of 6 sites did; the sixth, Psbt.b64decode, was the defect F36)."""
+    rule = "C06.base64_validated"
+    n = 0
+    for q, fi in sorted(ctx.prog.functions.items()):
+        for c in own_nodes(fi.node):
+            if isinstance(c, ast.Call) and str(norm(c.func)) in ("base64.b64decode", "b64decode") and isinstance(c.func, (ast.Attribute, ast.Name)) and (isinstance(c.func, ast.Attribute) and str(norm(c.func.value)) == "base64" or
+                                                                                                                          (isinstance(c.func, ast.Name) and "b64decode" in fi.module.imports if hasattr(fi.module, "imports") else False)):
+                n += 1
+                ok = any(k.arg == "validate" and isinstance(k.value, ast.Constant) and k.value.value is True for k in c.keywords)
+                rep.ob(rule, f"{q}", ok, fi.where(c), "validate=True" if ok else f"`{norm(c)[:60]}` drops the characters it does not know: text that is not base64 is decoded as if it were")
+    rep.floor(rule, 6)
+
+
 RULES = [
+    ("C06.base64_validated", rule_base64_validated),
     ("C06.encode_decode_sizes", rule_encode_decode_sizes),
     ("C06.text_admission", rule_text_admission_),
     ("C06.coercion_used", rule_coercion_used_),
